@@ -2343,16 +2343,19 @@ impl EmbRunner {
     }
 }
 
-fn emb_replay(m: Metric, ops: &[EOp]) -> Vec<(usize, String, &'static str)> {
+fn emb_replay_what(m: Metric, ops: &[EOp]) -> Vec<(usize, String, &'static str, String)> {
     let mut r = EmbRunner::new(m);
     let mut out = Vec::new();
     for (i, op) in ops.iter().enumerate() {
         let (_, v) = r.exec(op);
         for x in v {
-            out.push((i, x.site, x.kind));
+            out.push((i, x.site, x.kind, x.what));
         }
     }
     out
+}
+fn emb_replay(m: Metric, ops: &[EOp]) -> Vec<(usize, String, &'static str)> {
+    emb_replay_what(m, ops).into_iter().map(|(i, s, k, _)| (i, s, k)).collect()
 }
 
 /// `<site>/<kind>` from the shrunk trace, with the conventions of `classify`: a violation at a search
@@ -2454,8 +2457,8 @@ fn run_emb(cx: &mut Ctx, stream: &str, m: Metric, ops: &[EOp]) {
         let prefix = &ops[..=at];
         let mut fails = |cand: &[EOp]| emb_replay(m, cand).iter().any(|(_, _, k)| *k == kind);
         let shrunk = shrink_list(prefix, &mut fails);
-        let ks = emb_replay(m, &shrunk);
-        let (sat, ssite, skind) = ks.iter().find(|(_, _, k)| *k == kind).cloned().unwrap_or((shrunk.len() - 1, site.clone(), kind));
+        let ks = emb_replay_what(m, &shrunk);
+        let (sat, ssite, skind, what) = ks.iter().find(|(_, _, k, _)| *k == kind).cloned().unwrap_or((shrunk.len() - 1, site.clone(), kind, what));
         let class = emb_classify(m, &shrunk, sat, &ssite, skind);
         if cx.reported.insert(class.clone()) {
             cx.rep.violation(&class, &what, json!({"ops": emb_ops_json(m, &shrunk[..=sat]), "found_in_stream": stream}));
